@@ -762,6 +762,10 @@ mod real {
 pub fn run(ctx: &mut Ctx) {
     #[cfg(not(miri))]
     real::run(ctx);
+    // `--x-only real-daemon`: only the class on the real bus (the ThreadSanitizer layer: that class is the one with real threads)
+    if ctx.args.extra.get("only").map(|s| s == "real-daemon").unwrap_or(false) {
+        return;
+    }
     let n = ctx.budget(2500, 100_000);
     for i in 0..n {
         if !ctx.want(i) {
